@@ -201,6 +201,7 @@ def _kw_cycle(i, seed, **base):
                                  "after_ctor", "empty_ctor"][(i // 3) % 10])
     kw.setdefault("sub_events", i % 8 == 5)
     kw.setdefault("reuse_evs", i % 9 == 4)
+    kw.setdefault("peek", i % 5 == 1)
     kw.setdefault("late_scheduler", i % 5 == 2)
     kw.setdefault("np_ints", i % 6 == 4)
     kw.setdefault("aware_start", i % 7 == 3)
